@@ -276,6 +276,81 @@ def _task_joined(task):
     return res
 
 
+def _task_two_connections(task):
+    """two connections in one process, each stream cut once, their reads
+    interleaved in every order: a connection receives exactly its own
+    messages whatever the other one is in the middle of"""
+    quick, part, nparts = task
+    res = core.Result()
+    P = pool()
+    n_exec = 0
+    pairs = [(i, j) for i in range(len(P)) for j in range(len(P))]
+    for pi, (i, j) in enumerate(pairs):
+        if pi % nparts != part:
+            continue
+        ra = encode(P[i], 300)[0]
+        rb = encode(P[j], 400)[0]
+        cuts_a = range(0, len(ra), 1 if not quick else 3)
+        cuts_b = [0, 1, 7, 16, len(rb) // 2, len(rb) - 1] if quick \
+            else range(0, len(rb), 2)
+        for roles in (('server', 'server'), ('client', 'server')):
+            for ca in cuts_a:
+                for cb in cuts_b:
+                    a_chunks = [x for x in (ra[:ca], ra[ca:]) if x]
+                    b_chunks = [x for x in (rb[:cb], rb[cb:]) if x]
+                    for order in space.interleavings(
+                            [('a', k) for k in range(len(a_chunks))],
+                            [('b', k) for k in range(len(b_chunks))]):
+                        pa, ta = make_server() if roles[0] == 'server' \
+                            else make_client(False)
+                        pb, tb = make_server()
+                        try:
+                            # handshakes: A first half, B whole, A second half
+                            hsa = SERVER_HS if roles[0] == 'server' \
+                                else CLIENT_HS
+                            pa.dataReceived(hsa[:5])
+                            pb.dataReceived(SERVER_HS)
+                            pa.dataReceived(hsa[5:])
+                            for who, k in order:
+                                if who == 'a':
+                                    pa.dataReceived(a_chunks[k])
+                                else:
+                                    pb.dataReceived(b_chunks[k])
+                            err = None
+                        except Exception as e:
+                            err = '%s: %s' % (type(e).__name__, e)
+                        n_exec += 1
+                        ok = err is None and len(pa.got) == 1 and \
+                            len(pb.got) == 1 and \
+                            not c03.compare_parsed(pa.got[0], P[i],
+                                                   P[i]['serial'] or 300) \
+                            and not c03.compare_parsed(pb.got[0], P[j],
+                                                       P[j]['serial'] or 400)
+                        if not ok:
+                            res.violation(
+                                '%s/two-connections/%s' % (
+                                    PROP, (err or 'wrong-delivery')
+                                    .split(':')[0]),
+                                'connections A (%s, message %d cut at %d) and '
+                                'B (message %d cut at %d), reads in order %r:'
+                                ' A received %d message(s), B %d; %s'
+                                % (roles[0], i, ca, j, cb,
+                                   [w for w, _ in order], len(pa.got),
+                                   len(pb.got), err or ''),
+                                {'two': [i, j, ca, cb,
+                                         [list(o) for o in order],
+                                         list(roles)]},
+                                size=4)
+        res.count('states')
+    res.count('transitions', n_exec)
+    res.count('evaluations', n_exec)
+    res.count('traces', n_exec)
+    res.count('nontrivial', n_exec)
+    res.sample({'two_connections': 'every pair of pool messages, each cut '
+                'once, all interleavings of the four reads'})
+    return res
+
+
 def _task_coalesce(task):
     n_msgs, cut = task
     res = core.Result()
@@ -345,7 +420,9 @@ def run(ctx):
         'byte-at-a-time and every pair of cuts in the handshake and the '
         'first %d message bytes. Extreme coalescing: 3000%s messages in one '
         'and in two reads. Oracle: the sequence of message callbacks equals '
-        'the sent sequence (type, serial, flags, header fields, body). '
+        'the sent sequence (type, serial, flags, header fields, body). Two '
+        'connections in one process: every pair of pool messages, each cut '
+        'once, every interleaving of the reads, handshakes interleaved too. '
         'state = stream, transition = one schedule executed on a fresh real '
         'protocol' % ('a tenth' if q else 'all', len(pool()),
                       'near message boundaries / inside fixed headers'
@@ -359,6 +436,7 @@ def run(ctx):
     ctx.map(_task_binary, [(q, i, n) for i in range(n)])
     ctx.map(_task_joined, [(q, r) for r in ('server', 'client',
                                             'client-unix')])
+    ctx.map(_task_two_connections, [(q, i, n) for i in range(n)])
     co = [(3000, False), (3000, True), (1200, False)]
     if not q:
         co += [(20000, False), (20000, True)]
@@ -366,6 +444,9 @@ def run(ctx):
 
 
 def replay(data):
+    if 'two' in data:
+        res = _task_two_connections((True, 0, 1))
+        return [(s, v['what']) for s, v in res.violations.items()]
     if 'coalesce' in data:
         res = _task_coalesce((data['coalesce'], data['cut']))
         return [(s, v['what']) for s, v in res.violations.items()]
